@@ -1,5 +1,6 @@
 import MahfModel.Model.PopMachineWire
 import MahfModel.Model.TemplatesId
+import MahfModel.Model.EvalTreeC06
 open MahfModel MahfModel.PopMachine.Wire MahfModel.Tpl Sexp
 
 /-- `(generic NAME V I ITERS SEED seq|par only-a|only-g)`: a generic loop function `heuristics::xx::xx::<P, I>`
@@ -52,6 +53,20 @@ def c06generic (input implOut : Sexp) : Option Verdict := do
     pure { agree, holds := cls == "-", cls, model }
   | _ => none
 
+/-- `(rerun NAME V I ITERS SEED seq|par K)`: a template run `K` times through `Configuration::run` on one state. The
+implementation's output is the list of the run-level records of the `run` cases (objective calls counted per run); every
+run is judged as a `run` case: K — every leaf agrees with the counter model, started from a freshly initialised counter
+(`init` resets it at the beginning of every run); O — the reported number of evaluations of EACH run equals the objective
+calls of that run. -/
+def c06rerun (input implOut : Sexp) : Option Verdict := do
+  let _ ← tagged? "rerun" input
+  match implOut with
+  | .list runs =>
+    let vs ← runs.mapM (C06.run input)
+    let cls := (vs.find? fun v => !v.holds).map (·.cls) |>.getD "-"
+    pure { agree := vs.all (·.agree) && !vs.isEmpty, holds := vs.all (·.holds), cls, model := .list (vs.map (·.model)) }
+  | _ => none
+
 def c06 (input implOut : Sexp) : Option Verdict :=
   match input with
   | .list (.atom "evalsteps" :: _) => C06.comp input implOut
@@ -59,6 +74,9 @@ def c06 (input implOut : Sexp) : Option Verdict :=
   | .list (.atom "run" :: _) => C06.run input implOut
   | .list (.atom "fa" :: _) => C06.fa input implOut
   | .list (.atom "generic" :: _) => c06generic input implOut
+  | .list (.atom "rerun" :: _) => c06rerun input implOut
+  | .list (.atom "cfgruns" :: _) => EvalTree.Wire.cfgruns input implOut
+  | .list (.atom "direct" :: _) => EvalTree.Wire.direct input implOut
   | _ => none
 
 /-- `--gen-generic`: stdin lines `(tree NAME variant TREE)` ↦ Lean source of `Generated/TemplatesGenericA.lean`. -/
